@@ -1,7 +1,9 @@
 #!/venv/bin/python
 """Evaluate the checks against the seeded changes kept under /verif/seeded.
 
-  tools_seeded.py [--only NAME] [--candidates DIR]
+  tools_seeded.py [--only NAME] [--candidates DIR] [--own-only]
+
+--own-only runs only the check of the seed's own property (fast).
 
 For every <dir>/<name>/patch.diff: copy /repo/src to a scratch directory,
 apply the patch, run every check (quick tier) with --root <scratch>, record
@@ -27,7 +29,9 @@ def run_one(args):
         if r.returncode != 0:
             return name, {'error': 'patch failed: ' + r.stdout + r.stderr}
         res = {}
-        for c in ALL:
+        own = name.split('/')[0].split('-')[0]
+        own_only = bool(os.environ.get('VERIF_OWN_ONLY'))
+        for c in ([own] if own_only and own in ALL else ALL):
             env = dict(os.environ, VERIF_NO_EVIDENCE='1')
             p = subprocess.run([PY, os.path.join(HERE, 'vp.py'), 'check', c,
                                 '--root', tmp], capture_output=True, text=True, env=env)
@@ -50,6 +54,8 @@ def main():
             only = args.pop(0)
         elif a == '--candidates':
             base = args.pop(0)
+        elif a == '--own-only':
+            os.environ['VERIF_OWN_ONLY'] = '1'
     jobs = []
     for root, dirs, files in sorted(os.walk(base)):
         if 'patch.diff' in files:
@@ -65,8 +71,8 @@ def main():
                 print('%-14s %s' % (name, res['error'][:200]))
                 continue
             own = name.split('/')[0].split('-')[0]
-            hit = [c for c in ALL if res[c]['rc'] == 1]
-            err = [c for c in ALL if res[c]['rc'] == 2]
+            hit = [c for c in ALL if c in res and res[c]['rc'] == 1]
+            err = [c for c in ALL if c in res and res[c]['rc'] == 2]
             print('%-14s own=%s  VIOLATION by %-28s ANALYSIS-ERROR by %s' % (
                 name, 'CAUGHT' if own in hit else ('err' if own in err else 'MISSED'),
                 ','.join(hit) or '-', ','.join(err) or '-'))
